@@ -798,6 +798,8 @@ func checkC04Hist(c HistCase, o *Obs) error {
 			cn.SetReadDeadline(time.Time{})
 		}
 	}
+	rereadSameErr = true
+	defer func() { rereadSameErr = false }()
 	readStart := time.Now()
 	rt := RunRead(conn, c.Reads, nComplete+3, lens, 5)
 	afterReadError = nil
